@@ -195,6 +195,10 @@ func buildFamilies() []family {
 			sc, what := tryOffCase(i)
 			return kase{sc, "TRY|" + what, "TRY offsets " + what}
 		}},
+		{"trystart", 3 * 4 * 3 * 2, func(i int) kase {
+			sc, what := tryStartCase(i)
+			return kase{sc, "TRY-handler-before-TRY|" + what, "TRY with a handler at the start of the script " + what}
+		}},
 		{"endfin", 5 * 4 * 2, func(i int) kase {
 			sc, what := endfinCase(i)
 			return kase{sc, what, what}
